@@ -47,6 +47,9 @@ CLAIMED = {
     "C18": ("Lean 4 proof of Kosaraju's two-pass algorithm over an executable model of scc.rs (functional DFS, white-path specification + finishing-order invariant, second-pass invariant; fuel shown sufficient) for every well-formed graph and every adjacency iteration order; verified executable checker isSccPartition; exhaustive (all digraphs on <= 3 / <= 4 vertices) and structured random correspondence run against the real functions with an independent transitive-closure oracle",
             "Proof: for every well-formed Graph value (any vertex count, self loops, parallel edges, isolated vertices, any keys() order of the adjacency slots; in particular every graph EdgeLoader builds from an edge list whose end points are vertices) the model of all_strongly_connected_componenets returns without error and its result is a list of non-empty blocks whose concatenation is repetition-free and holds exactly the vertices, each block being exactly the set of vertices mutually reachable with any of its members (scc_partition, scc_exactly_one, scc_sound, scc_complete, scc_iff); largest_strongly_connected_component returns a block of maximal length, the first such (largest_is_max, largest_ties_first). All theorems are complete (no _partial). The model is tied to the code by a correspondence run (real Graph values built in-process, keys() order read back from the real container, canonicalised output textually equal) and the real output is additionally judged by an independent closure oracle and by the verified checker (testing). Outside the model: stack depth of the recursive Rust functions, Graph values that are not well formed (correspondence only).",
             "§5 C18, Appendix A.6 (finishing-order lemma corrected, see Props/C18.lean)"),
+    "C20": ("Lean 4 theorems over an executable model of the five route/tree output formats, concat_linestrings, the traversal/uuid/summary plugins and apply_output_processing + correspondence run that parses back the WKT/WKB/GeoJSON/JSON the real code prints",
+            "Proof: for every route, tree, geometry table and format the model's edge-id list, JSON records and GeoJSON features are the route's edges in order; the WKT/WKB/GeoJSON geometry is the concatenation of the stored linestrings in edge order (joint points kept); any missing row is an error (exact iff), at format level and as an error response through apply_output_processing wherever the plugin sits; tree outputs have one entry per branch and are permutation-invariant in the hash map's order; attached uuids are table[origin], table[destination] and the plugin never panics. The model is tied to the Rust code by a textual correspondence run through the real TraversalOutputFormat, traversal_ops, UUIDOutputPlugin::process and apply_output_processing with file-built plugins.",
+            "§5 C20"),
 }
 
 NOT_YET = {
